@@ -26,6 +26,12 @@ the exactness theorems `Dec.mul_exact/add_exact/sub_exact/div_exact`, and the co
 `derived_close_2018`).  This closes the former `FULL:` gap of this file (until the wave-1 extension the
 2·10⁻²⁷ bound was only kernel-checked per table row; that check is kept).
 
+Definitions regenerated from the source (`Props/C02Src.lean`, a separate build target because it imports the generated
+`Gen/ContextSrc.lean`; translator `harness/c02_src.py`): the alias tuples of `context.py` with their Decimal expression
+trees, the rename dict, the derived constants, the calorie insertion and the translate table are proved equal to this
+model's (`aliases_src_eq_spec_symbolic`, `aliases_src_eq_spec_value_2014/2018`, `context_src_eq_model_2014/2018`,
+`renames_src_eq_model`, `derived_src_eq_model`, `mangle_src_eq_model`, `aliases_src_exact_def_2014/2018`, …).
+
 Still not proved in general (partial): `float(Decimal)` is the nearest double
 -- FULL: ∀ d, ∀ double y, |val d − f64Val (toF64 d)| ≤ |val d − y|
 it is kernel-checked (`nearestOk`: neither neighbouring double is closer, ties to even) for every
